@@ -247,7 +247,7 @@ def gen_blk(rnd, M, masked, allow_unsafe=False):
         return (k, d)
     if k == "temp_used_res":
         res = rnd.sample(M.res, rnd.randrange(0, len(M.res) + 1))
-        ints = rnd.sample(range(M.nch), rnd.choice([0, 0, 0, 1, 2]))
+        ints = rnd.sample(range(M.nch), min(M.nch, rnd.choice([0, 0, 0, 1, 2])))
         return (k, res, ints)
     if k == "gls_one":
         return (k,)
@@ -262,7 +262,7 @@ def gen_helper(rnd, M):
     if k == "pw":
         comb = []
         for _ in range(rnd.randrange(0, 4)):
-            comb.append((rnd.sample(M.res, rnd.randrange(0, 3)), rnd.sample(range(M.nch), rnd.randrange(0, 3))))
+            comb.append((rnd.sample(M.res, min(len(M.res), rnd.randrange(0, 3))), rnd.sample(range(M.nch), min(M.nch, rnd.randrange(0, 3)))))
         if rnd.random() < 0.3:
             comb = None  # default: every chain on its own
         return (k, comb)
